@@ -8,4 +8,10 @@ import "wa-lang.org/wa/internal/native/wemu/device"
 // 寄存器整数
 type RVUInt = uint64
 
+// 寄存器整数(有符号视图)
+type RVInt = int64
+
+// 寄存器位宽
+const XLen = 64
+
 var _ device.CPU = (*CPU)(nil)
